@@ -27,7 +27,7 @@ RULE = ('family = one generated pipeline containing at least one random stage '
         'variants repeat one order; ordered is False exactly with a reshuffling stage; '
         'vars() of every stage and of its copy agree. Non-trivial = an adversary step '
         'fired between two variant steps; distinct = distinct (pipeline, op list).')
-PROBES = ['iterator_created_before_another_epoch',
+PROBES = ['frozen_copy_of_prefetching_pipeline', 'iterator_created_before_another_epoch',
           'copy_of_every_dataset_subclass_with_non_default_parameters',
           'frozen_copy_of_live_dataset', 'one_generator_shared_by_stages',
           'adversary_step_inside_an_epoch', 'prefetch_pool_variant_ran',
@@ -271,6 +271,7 @@ def gen(rng, tier, index):
     variants = ['A', 'B', 'C']
     if not any(s['op'] == 'local_shuffle' for s in desc['stages']):
         variants.append('F')
+        variants.append('FP')
         if per_epoch:
             # a frozen copy taken from a build that keeps being iterated
             variants += ['G', 'FG']
@@ -284,7 +285,7 @@ def gen(rng, tier, index):
     for j in range(3):
         ops = []
         for v in variants:
-            if v in ('P1', 'Pw'):
+            if v in ('P1', 'Pw', 'FP'):
                 ops += [['epoch', v]] * epochs
             else:
                 ops += [['next', v]] * (epochs * (upper + 1))
@@ -428,7 +429,11 @@ def run(case):
                 elif name == 'C':
                     ds = base.copy()
                 elif name == 'F':
-                    ds = base.copy(freeze=True)
+                    # any truthy flag freezes (numpy booleans come out of comparisons)
+                    flag = [True, np.bool_(True), 1][case['sched_seed'] % 3]
+                    ds = base.copy(freeze=flag)
+                elif name == 'FP':
+                    ds = base.prefetch(1, case['pf']['b1']).copy(freeze=True)
                 elif name == 'P1':
                     ds = base.prefetch(1, case['pf']['b1'])
                 elif name == 'Pw':
@@ -453,7 +458,7 @@ def run(case):
             pos = [i for i, s in enumerate(desc['stages']) if s['op'] in RANDOM_OPS]
             if pos and pos[0] < len(desc['stages']) - 1:
                 probes['random_stage_below_other_stages'] = 1
-            ep_count = {'P1': 0, 'Pw': 0}
+            ep_count = {'P1': 0, 'Pw': 0, 'FP': 0}
             for op, arg in case['ops']:
                 if op == 'reseed':
                     np.random.seed(arg)
@@ -481,14 +486,15 @@ def run(case):
                         v.outs.append(out)
                         v.left -= 1
                         probes['prefetch_pool_variant_ran' if arg == 'Pw'
-                               else 'prefetch_single_variant_ran'] = 1
+                               else ('frozen_copy_of_prefetching_pipeline' if arg == 'FP'
+                                     else 'prefetch_single_variant_ran')] = 1
             # finish what the op list left open (deterministic order)
             for name in case['variants']:
                 v = vs[name]
                 guard = 0
                 while v.left > 0 and not v.error and guard < 10000:
                     guard += 1
-                    if name in ('P1', 'Pw'):
+                    if name in ('P1', 'Pw', 'FP'):
                         out, err = _epoch_under_sim(
                             v.ds, case['sched_seed'] + 31 * ep_count[name])
                         ep_count[name] += 1
@@ -508,7 +514,7 @@ def run(case):
             if not any(v.error for v in vs.values()):
                 ref = vs['A'].outs
                 for name in case['variants']:
-                    if name in ('A', 'F', 'G', 'FG'):
+                    if name in ('A', 'F', 'G', 'FG', 'FP'):
                         continue
                     for e in range(E):
                         if vs[name].outs[e] != ref[e]:
@@ -525,7 +531,7 @@ def run(case):
                                     [list(W.src_ids(x)) for x in vs[name].outs[e]],
                                     [list(W.src_ids(x)) for x in ref[e]])))
                             break
-                for fname in ('F', 'FG'):
+                for fname in ('F', 'FG', 'FP'):
                     if fname not in vs:
                         continue
                     f = vs[fname].outs
